@@ -254,13 +254,29 @@ pub fn render_hpoa(rng: &mut Rng, f: &Facts, case: &mut Case) -> (String, u64) {
         case.stat("decipher_rows", 1);
         ignored += 1;
     }
-    let text = finish(rng, &head.join("\n"), rows);
+    let text = if rng.chance(1, 3) {
+        // rows grouped by disease NUMBER and term (an OMIM and an ORPHA entry with the same number
+        // end up next to each other), not shuffled
+        let key = |r: &String| -> (String, String) {
+            let cols: Vec<&str> = r.split('\t').collect();
+            (cols[0].split(':').nth(1).unwrap_or("").to_string(), cols.get(3).unwrap_or(&"").to_string())
+        };
+        rows.sort_by_key(key);
+        case.stat("hpoa_rows_grouped_by_number", 1);
+        let mut s = head.join("\n");
+        s.push('\n');
+        s.push_str(&rows.join("\n"));
+        s.push('\n');
+        s
+    } else {
+        finish(rng, &head.join("\n"), rows)
+    };
     (text, ignored)
 }
 
 /// facts the text formats can express: every record has at least one link; no replacement id 0
 /// on the binary path (known finding K3 of C07)
-fn normalise(f: &mut Facts, flags: &mut Flags) {
+pub fn normalise(f: &mut Facts, flags: &mut Flags) {
     for k in 0..3 {
         let linked: BTreeSet<u32> = f.links[k].iter().map(|l| l.0).collect();
         f.recs[k].retain(|r| linked.contains(&r.0));
@@ -282,6 +298,17 @@ pub fn c09(rng: &mut Rng, _tier: &str, idx: usize) -> Case {
     let (mut f, shape) = gen_facts(rng, &DagOpts { max_terms, with_roots: true, max_recs: 6 });
     c.stat(&format!("shape_{shape:?}"), 1);
     let mut flags: Flags = if rng.chance(1, 2) { gen_flags(rng, &mut f) } else { vec![] };
+    if rng.chance(1, 3) && !f.links[1].is_empty() {
+        // an ORPHA disease with the NUMBER of an OMIM disease, on the same term
+        let (d, t) = *rng.pick(&f.links[1]);
+        if !f.recs[2].iter().any(|r| r.0 == d) {
+            f.recs[2].push((d, gen_name(rng)));
+        }
+        if !f.links[2].contains(&(d, t)) {
+            f.links[2].push((d, t));
+        }
+        c.stat("same_number_omim_orpha_same_term", 1);
+    }
     normalise(&mut f, &mut flags);
     let data_version = !rng.chance(1, 10);
     // the text route carries the version as YYYY-MM-DD
@@ -462,5 +489,32 @@ fn malformed(rng: &mut Rng) -> Case {
     c.stat(&format!("malformed_{what}"), 1);
     c.op(format!("jaxm 0 {} {} {} {}", if transitive { "transitive" } else { "std" }, name(&obo), name(&genes), name(&hpoa)));
     c.nontrivial = false;
+    c
+}
+
+
+/// C16, text route: the same facts rendered `k` times (stanza order, row order, tag order, ignored
+/// columns and stanzas all drawn afresh) - every rendering loads to the same ontology
+pub fn text_orders(rng: &mut Rng, k: u32) -> Case {
+    let transitive = rng.chance(1, 2);
+    let mut c = Case::new("text-record-order");
+    let max_terms = *rng.pick(&[4usize, 8, 15, 25]);
+    let (mut f, _) = gen_facts(rng, &DagOpts { max_terms, with_roots: true, max_recs: 5 });
+    let mut flags: Flags = if rng.chance(1, 2) { gen_flags(rng, &mut f) } else { vec![] };
+    normalise(&mut f, &mut flags);
+    f.version = (f.version.0 % 10000, f.version.1 % 100, f.version.2 % 100);
+    facts_stats(&f, &mut c);
+    for s in 0..k {
+        let obo = render_obo(rng, &f, &flags, &mut c, &ObOpts { data_version: true });
+        let genes = render_genes(rng, &f, transitive, &mut c);
+        let (hpoa, _) = render_hpoa(rng, &f, &mut c);
+        c.op(format!("jax {s} {} {} {} {}", if transitive { "transitive" } else { "std" }, name(&obo), name(&genes), name(&hpoa)));
+        if s > 0 {
+            c.op(format!("same 0 {s}"));
+        }
+    }
+    c.op("dump 0".to_string());
+    c.stat("text_renderings", u64::from(k));
+    c.nontrivial = f.terms.len() >= 3;
     c
 }
